@@ -398,7 +398,7 @@ def run_shard(desc, tier):
     return run_shard_fresh(desc, tier)
 
 
-VERSION_NS = [100_000_000, 600_000_000, 600_000_512]
+VERSION_NS = [100_000_000, 600_000_000, 600_000_512, 999_999_800]  # (the last one: within half a microsecond of the next full second)
 
 
 def run_options(r, iface0):
@@ -440,7 +440,12 @@ def run_options(r, iface0):
             "etag-hook-default-chunk": lambda: Tagged(path),
         }
         headers_menu = [(None, None), ("bytes=2-5", [("fl", 2, 5)]), ("bytes=0-1,5-8", [("fl", 0, 1), ("fl", 5, 8)]), ("bytes=0-1 , 5-8", [("fl", 0, 1), ("fl", 5, 8)]), ("bytes=0-1\t,\t5-8 ,10-", [("fl", 0, 1), ("fl", 5, 8), ("f", 10)]),
-                        ("bytes= 3-4", [("fl", 3, 4)]), ("bytes=-3", [("s", 3)]), ("bytes=30-", [("f", 30)]), ("bytes=15-", [("f", 15)]), ("bytes=0-0,18-", [("fl", 0, 0), ("f", 18)])]
+                        ("bytes= 3-4", [("fl", 3, 4)]), ("bytes=-3", [("s", 3)]), ("bytes=30-", [("f", 30)]), ("bytes=15-", [("f", 15)]), ("bytes=0-0,18-", [("fl", 0, 0), ("f", 18)]),
+                        # more specs than any built-in limit one might think of: 300 one-byte windows on every other byte... of a 20-byte file
+                        # that is 10 satisfiable ones and 290 beyond the end -> 416; and 300 repeats of satisfiable windows
+                        ("bytes=" + ",".join(f"{2 * i}-{2 * i}" for i in range(300)), [("fl", 2 * i, 2 * i) for i in range(300)]),
+                        ("bytes=" + ",".join(f"{(2 * i) % 20}-{(2 * i) % 20}" for i in range(300)), [("fl", (2 * i) % 20, (2 * i) % 20) for i in range(300)]),
+                        ("bytes=" + ",".join(["0-0"] * 299 + ["19-"]), [("fl", 0, 0), ("f", 19)])]
         for vname, mk in variants.items():
             def go(method, headers):
                 random.seed(12345)
@@ -515,16 +520,16 @@ def run_shard_fresh(desc, tier):
                     obs = [("etag", et), ("last-modified", lm)]
                     for kind, text in judge(base, None, 12, None, True, "GET", data):
                         r.violation(f"versions-run:{kind}:{iface}", {"versions": list(desc[1:]), "step": step, "iface": iface}, f"{iface} version {v} at step {step}: {text}")
-                    for ifr in [et, prev and prev[iface]]:
+                    for ifr in [et, lm, prev and prev[iface]]:
                         if ifr is None:
                             continue
                         for method in ("GET", "HEAD"):
                             res = call(iface, path, 4, method, [("Range", "bytes=2-5"), ("If-Range", ifr)])
                             r.count("evaluations")
                             r.count("distinct_nontrivial")
-                            for kind, text in judge(res, None, 12, [("fl", 2, 5)], ifr == et, method, data):
+                            for kind, text in judge(res, None, 12, [("fl", 2, 5)], ifr in (et, lm), method, data):
                                 r.violation(f"versions-run:{kind}:{iface}", {"versions": list(desc[1:]), "step": step, "iface": iface, "if_range": ifr},
-                                            f"{iface} {method} version {v} at step {step} of {list(desc[1:])}, Range bytes=2-5, If-Range {ifr!r} (announced ETag {et!r}): {text}")
+                                            f"{iface} {method} version {v} at step {step} of {list(desc[1:])}, Range bytes=2-5, If-Range {ifr!r} (announced ETag {et!r}, Last-Modified {lm!r}): {text}")
                     r.add("version-obs", (v, iface, tuple(obs)))
                 prev = {iface: call(iface, path, 4, "GET", []).header("etag") for iface in ("wsgi", "asgi", "zerocopy")}
         finally:
